@@ -196,6 +196,15 @@ def oracle(case, script, trace, log):
         if ev[0] == "reproc":
             bad.append(("original-message-object-processed-again", f"msg_proc was called a second time (call #{ev[2]}) with the SAME message object (payload {ev[1]}) it had already processed"))
             return bad
+    # (c1) an inserted head is STARTED (sent None) in the same step in which the processor returned it: nothing the driver
+    #      does comes in between, so every processor call that produced a head shows that head's start in the log
+    started = {ev[0] for ev in log if len(ev) >= 2 and ev[1] == "start"}
+    for ev in log:
+        if ev[0] == "proc":
+            rule = next((r for r in case["rules"] if r["payload"] == ev[1]), None)
+            if rule is not None and rule["head"] is not None and f"head{ev[2]}" not in started:
+                bad.append(("inserted-head-never-started", f"msg_proc call #{ev[2]} (payload {ev[1]}) returned a head plan that was never started: something other than None was delivered to it first (a stale exception?)"))
+                return bad
     # (c) inserted messages are not themselves re-processed
     for ev in log:
         if ev[0] == "proc" and _origin(ev[1]) != "host":
